@@ -4,6 +4,8 @@ import (
 	"bytes"
 	"crypto/sha256"
 	"fmt"
+	"path/filepath"
+	"testing/synctest"
 
 	"github.com/algorand/go-algorand/crypto"
 	"github.com/algorand/go-algorand/protocol"
@@ -41,6 +43,12 @@ func (s *Sim) observeVote(n *Node, in *inst, v UVote, wire []byte) {
 	if n.adv {
 		return
 	}
+	if own && v.R.Period > s.maxPeriod[v.R.Round] {
+		s.maxPeriod[v.R.Round] = v.R.Period
+	}
+	if own && s.sync != nil && s.syncMode && v.R.Round == s.sync.target {
+		s.sync.periods[v.R.Period] = true
+	}
 	if own && v.R.Step >= stepSoft {
 		// C02 history oracle: one value per (key, round, period, step), over all incarnations
 		k := fmt.Sprintf("%x|%d|%d|%d", v.R.Sender[:6], v.R.Round, v.R.Period, v.R.Step)
@@ -58,6 +66,12 @@ func (s *Sim) observeVote(n *Node, in *inst, v UVote, wire []byte) {
 		}
 		if in.inc > 0 {
 			s.stat("vote_after_restart", 1)
+		}
+		if wire != nil && !in.shadow {
+			if s.batchOwn == nil {
+				s.batchOwn = map[int][]UVote{}
+			}
+			s.batchOwn[n.id] = append(s.batchOwn[n.id], v)
 		}
 	} else if own && v.R.Step == stepPropose {
 		k := fmt.Sprintf("P%x|%d|%d", v.R.Sender[:6], v.R.Round, v.R.Period)
@@ -198,10 +212,78 @@ func (s *Sim) nontrivial() bool {
 	switch s.cfg.Prop {
 	case "C02", "C07":
 		return s.stats["crash"] > 0
+	case "C05":
+		return s.stats["sync_committed"] > 0
 	}
 	return f > 0
 }
 
 func (s *Sim) craftAction(a, b, c int) {}
-func (s *Sim) runSyncPhase()           {}
-func (s *Sim) drawDelay() (d durationT) { return 0 }
+
+// shadowCheck is C02's "persist before send" oracle: at the instant attest votes have left node n,
+// a fresh service started on a copy of n's crash DB (the durable image at this instant) must resume
+// in a state that already contains that attestation: it re-originates the same votes, and nothing it
+// originates conflicts with anything the node ever sent. The shadow is discarded afterwards.
+func (s *Sim) shadowCheck(n *Node, sent []UVote) {
+	// the latest (round, period, step) attested in this reaction
+	top := sent[0].R
+	for _, v := range sent {
+		r := v.R
+		if r.Round > top.Round || (r.Round == top.Round && (r.Period > top.Period || (r.Period == top.Period && r.Step > top.Step))) {
+			top = r
+		}
+	}
+	s.shadowSeq++
+	path := filepath.Join(s.dir, fmt.Sprintf("shadow%d.db", s.shadowSeq))
+	if err := copyDB(n.dbPath, path); err != nil {
+		s.harness = "shadow copyDB: " + err.Error()
+		return
+	}
+	in, err := s.startInst(n, path, true)
+	if err != nil {
+		s.harness = "shadow start: " + err.Error()
+		return
+	}
+	synctest.Wait()
+	in.mu.Lock()
+	out := in.outbox
+	in.outbox = nil
+	in.mu.Unlock()
+	s.retire(in)
+	s.stat("shadow_restore", 1)
+	reattested := map[string]PValue{}
+	for _, m := range out {
+		if m.tag != protocol.AgreementVoteTag {
+			continue
+		}
+		v, err := DecodeVote(m.data)
+		if err != nil || !s.owns(n, v.R.Sender) || v.R.Step < stepSoft {
+			continue
+		}
+		k := fmt.Sprintf("%x|%d|%d|%d", v.R.Sender[:6], v.R.Round, v.R.Period, v.R.Step)
+		if m := s.origin[k]; m != nil {
+			if _, ok := m[v.R.Proposal]; !ok {
+				s.violate("C02", "shadow-conflict", "", fmt.Sprintf("restored from the crash DB image taken when votes of (r%d p%d s%d) had left n%d, the node votes %s at r%d p%d s%d where it had already voted %v",
+					top.Round, top.Period, top.Step, n.id, v.R.Proposal.Short(), v.R.Round, v.R.Period, v.R.Step, m))
+				return
+			}
+		}
+		reattested[k] = v.R.Proposal
+	}
+	if n.led.next() != top.Round {
+		s.stat("shadow_round_moved", 1)
+		return // the round was committed in the same reaction: crash state is legitimately obsolete
+	}
+	for _, v := range sent {
+		if v.R.Round != top.Round || v.R.Period != top.Period || v.R.Step != top.Step {
+			continue
+		}
+		k := fmt.Sprintf("%x|%d|%d|%d", v.R.Sender[:6], v.R.Round, v.R.Period, v.R.Step)
+		if pv, ok := reattested[k]; !ok || pv != v.R.Proposal {
+			s.violate("C02", "sent-before-persisted", "", fmt.Sprintf("n%d released vote %x r%d p%d s%d %s, but the crash DB image at that instant does not restore to a state containing it (restored node re-attests %v)",
+				n.id, v.R.Sender[:4], v.R.Round, v.R.Period, v.R.Step, v.R.Proposal.Short(), reattested))
+			return
+		}
+	}
+	s.stat("shadow_reattest_ok", 1)
+}
